@@ -29,6 +29,11 @@ type ClientConn struct {
 	transport           EncodingTransport
 	unreliableTransport EncodingTransport
 
+	// gateMu orders the Disconnect against every other write: a write that has started is on the wire before the
+	// Disconnect, a write that starts later fails with ErrConnectionClosed (keep-alive pings excepted)
+	gateMu       sync.RWMutex
+	disconnected bool
+
 	idGenerator IDGenerator
 
 	ctx    context.Context
@@ -386,14 +391,40 @@ func (c *ClientConn) Close() error {
 // SendDisconnectは、Disconnectメッセージを送信します。
 func (c *ClientConn) SendDisconnect(ctx context.Context, msg *message.Disconnect) error {
 	// (closing the transport, which the caller does next, releases a write that is still waiting)
-	return c.boundedWrite(ctx, msg)
+	written := make(chan error, 1)
+	go func() {
+		c.gateMu.Lock()
+		c.disconnected = true
+		c.gateMu.Unlock()
+		written <- writeErr(c.transport.Write(msg))
+	}()
+	select {
+	case <-ctx.Done():
+		return ctx.Err()
+	case <-c.ctx.Done():
+		return errors.ErrConnectionClosed
+	case err := <-written:
+		return err
+	}
+}
+
+// gatedWrite writes msg on tr unless the Disconnect has been handed to the transport already.
+func (c *ClientConn) gatedWrite(tr EncodingTransport, msg message.Message) error {
+	c.gateMu.RLock()
+	defer c.gateMu.RUnlock()
+	if c.disconnected {
+		if _, ok := msg.(*message.Ping); !ok {
+			return errors.ErrConnectionClosed
+		}
+	}
+	return writeErr(tr.Write(msg))
 }
 
 // boundedWrite writes msg, bounded by the contexts like the write of a request: a transport that is redialling, or
 // a peer that stopped reading, keeps a write waiting for as long as it likes.
 func (c *ClientConn) boundedWrite(ctx context.Context, msg message.Message) error {
 	written := make(chan error, 1)
-	go func() { written <- writeErr(c.transport.Write(msg)) }()
+	go func() { written <- c.gatedWrite(c.transport, msg) }()
 	select {
 	case <-ctx.Done():
 		return ctx.Err()
@@ -521,7 +552,7 @@ func (c *ClientConn) SendUpstreamChunk(ctx context.Context, req *message.Upstrea
 	if !ok {
 		return errors.New("stream not exist")
 	}
-	err := writeErr(tr.Write(req))
+	err := c.gatedWrite(tr, req)
 	return err
 }
 
@@ -708,7 +739,7 @@ func (c *ClientConn) SendDownstreamCloseRequest(ctx context.Context, req *messag
 
 // SendDownstreamDataPointsAckは、DownstreamMetadataAckを送信します。
 func (c *ClientConn) SendDownstreamDataPointsAck(ctx context.Context, ack *message.DownstreamChunkAck) error {
-	return writeErr(c.transport.Write(ack))
+	return c.gatedWrite(c.transport, ack)
 }
 
 // SendDownstreamMetadataAckは、DownstreamMetadataAckを送信します。
@@ -785,7 +816,7 @@ func (c *ClientConn) sendRequest(ctx context.Context, req message.Request) (mess
 	// the write is bounded by the contexts as well: a peer that stopped reading blocks it indefinitely
 	// (closing the transport, which the keep-alive does on a ping timeout, releases it)
 	written := make(chan error, 1)
-	go func() { written <- writeErr(c.transport.Write(req)) }()
+	go func() { written <- c.gatedWrite(c.transport, req) }()
 	select {
 	case <-ctx.Done():
 		return nil, ctx.Err()
